@@ -44,18 +44,76 @@ type hop struct {
 	C int64  `json:"c,omitempty"` // count (nearest)
 }
 
+// A pool entry e = 65536*k + s describes a peer id by its XOR offset from the local id (same rule
+// as Corr.C37.offset_of): k < 160: common prefix of exactly k bits, lower bits from mix(s);
+// k = 160: the local id; 160 < k < 200: mix(s); k >= 200: entry k-200 with bit s flipped.
 type history struct {
 	Kind  string   `json:"kind"`
 	Size  int64    `json:"size"`
 	Local string   `json:"local"`
-	Pool  []string `json:"pool"`
+	Pool  []uint64 `json:"pool"`
 	Ops   []hop    `json:"ops"`
+	IDs   []string `json:"ids,omitempty"` // the derived ids (hex), for the reader of a replay file
 }
 
+// idCase: t, a = entry EA from t, b = entry EB from t (EB may refer to entry 0 = a).
 type idCase struct {
-	T string `json:"t"`
-	A string `json:"a"`
-	B string `json:"b"`
+	T  string `json:"t"`
+	EA uint64 `json:"ea"`
+	EB uint64 `json:"eb"`
+}
+
+var (
+	mixMult, _ = new(big.Int).SetString("1311185441393030098788534042950262523632243239815", 10)
+	two160     = new(big.Int).Lsh(big.NewInt(1), 8*idLen)
+)
+
+func mix(s uint64) *big.Int {
+	r := new(big.Int).SetUint64(s + 1)
+	r.Mul(r, mixMult)
+	return r.Mod(r, two160)
+}
+
+func entry(k, s uint64) uint64 { return k<<16 | s }
+
+func offsetOf(earlier []*big.Int, e uint64) *big.Int {
+	k, s := e>>16, e&0xffff
+	switch {
+	case k < 8*idLen:
+		top := new(big.Int).Lsh(big.NewInt(1), uint(8*idLen-1-k))
+		low := new(big.Int).Mod(mix(s), top)
+		return top.Add(top, low)
+	case k == 8*idLen:
+		return new(big.Int)
+	case k < 200:
+		return mix(s)
+	default:
+		d := new(big.Int)
+		if int(k-200) < len(earlier) {
+			d.Set(earlier[k-200])
+		}
+		return d.Xor(d, new(big.Int).Lsh(big.NewInt(1), uint(s)))
+	}
+}
+
+func offsets(pool []uint64) []*big.Int {
+	var ds []*big.Int
+	for _, e := range pool {
+		ds = append(ds, offsetOf(ds, e))
+	}
+	return ds
+}
+
+// poolIDs derives the ids of a pool (mirror of Corr.C37.pool_ids).
+func poolIDs(local []byte, pool []uint64) [][]byte {
+	l := new(big.Int).SetBytes(local)
+	var ids [][]byte
+	for _, d := range offsets(pool) {
+		x := new(big.Int).Xor(l, d)
+		x.Mod(x, two160)
+		ids = append(ids, x.FillBytes(make([]byte, idLen)))
+	}
+	return ids
 }
 
 // job is what the parent hands to the child through the replay-file mechanism.
@@ -248,14 +306,15 @@ func checkNearest(out []common.PeerIDAddressPair, target []byte, count int64, v 
 func runHistory(h *history, idx int) hobs {
 	o := hobs{Idx: idx}
 	local := hx.UnHex(h.Local)
-	pool := make([][]byte, len(h.Pool))
+	pool := poolIDs(local, h.Pool)
 	ids := make([]common.PeerId, len(h.Pool))
 	index := map[common.PeerId]int{}
 	raw := map[common.PeerId][]byte{}
-	for i, s := range h.Pool {
-		pool[i] = hx.UnHex(s)
+	for i := range pool {
 		ids[i] = mkID(pool[i])
-		index[ids[i]] = i
+		if _, dup := index[ids[i]]; !dup {
+			index[ids[i]] = i
+		}
 		raw[ids[i]] = pool[i]
 	}
 	rt := kb.NewRoutingTable(int(h.Size), mkID(local))
@@ -332,7 +391,9 @@ func runHistory(h *history, idx int) hobs {
 }
 
 func runIdCase(ic *idCase, idx int) idobs {
-	t, a, b := hx.UnHex(ic.T), hx.UnHex(ic.A), hx.UnHex(ic.B)
+	t := hx.UnHex(ic.T)
+	ab := poolIDs(t, []uint64{ic.EA, ic.EB})
+	a, b := ab[0], ab[1]
 	pt, pa, pb := mkID(t), mkID(a), mkID(b)
 	d := pt.Distance(pa)
 	o := idobs{IdIdx: idx, Cpl: common.CommonPrefixLen(pt, pa), Dist: hx.Hex(d[:]), Closer: pt.Closer(pa, pb)}
@@ -464,10 +525,10 @@ func spawn(c *hx.Ctx, j *job, timeout time.Duration) childResult {
 // an id is printed as the number its bytes denote (big-endian); Corr.C37.id_of turns it back
 func coqID(hexid string) string { return new(big.Int).SetBytes(hx.UnHex(hexid)).String() }
 
-func coqPool(pool []string) string {
+func coqPool(pool []uint64) string {
 	var s []string
-	for _, p := range pool {
-		s = append(s, coqID(p))
+	for _, e := range pool {
+		s = append(s, fmt.Sprint(e))
 	}
 	return hx.CoqList(s)
 }
@@ -526,21 +587,6 @@ func coqRes(rs []ores) (string, bool) {
 
 // ---------- generators ----------
 
-// idWithCPL returns an id whose common prefix with local is exactly k bits (k == 160: local).
-func idWithCPL(c *hx.Ctx, local []byte, k int) []byte {
-	id := c.Bytes(idLen)
-	if k >= 8*idLen {
-		return append([]byte{}, local...)
-	}
-	nb, left := k/8, uint(k%8)
-	copy(id[:nb], local[:nb])
-	mask := byte(0xff) << (8 - left) // the `left` high bits
-	id[nb] = (local[nb] & mask) | (id[nb] &^ mask)
-	bit := byte(1) << (7 - left)
-	id[nb] = (id[nb] &^ bit) | (^local[nb] & bit)
-	return id
-}
-
 func pickCPL(c *hx.Ctx, style string) int {
 	switch style {
 	case "close":
@@ -588,36 +634,37 @@ func genHistory(c *hx.Ctx, kind string) history {
 		style = "shallow"
 	}
 	seen := map[string]bool{}
-	var pool []string
-	addID := func(b []byte) {
-		s := hx.Hex(b)
-		if !seen[s] {
-			seen[s] = true
-			pool = append(pool, s)
+	var pool []uint64
+	var offs []*big.Int
+	addEntry := func(e uint64) {
+		d := offsetOf(offs, e)
+		if key := d.Text(16); !seen[key] {
+			seen[key] = true
+			pool = append(pool, e)
+			offs = append(offs, d)
 		}
 	}
+	seed := func() uint64 { return uint64(c.Intn(1 << 16)) }
 	for len(pool) < np {
 		if kind == "random" {
-			addID(c.Bytes(idLen))
+			addEntry(entry(161, seed()))
 		} else {
-			addID(idWithCPL(c, local, pickCPL(c, style)))
+			addEntry(entry(uint64(pickCPL(c, style)), seed()))
 		}
 	}
 	if c.Intn(3) == 0 {
-		addID(local) // the local id itself is a legal argument of Update
+		addEntry(entry(8*idLen, 0)) // the local id itself is a legal argument of Update
 	}
 	npeers := len(pool)
-	// query-only targets: random, near a pool id, the local id
+	// query-only targets: random, one bit away from a pool id, the local id
 	for k := 0; k < 3; k++ {
 		switch c.Intn(3) {
 		case 0:
-			addID(c.Bytes(idLen))
+			addEntry(entry(161, seed()))
 		case 1:
-			b := hx.UnHex(pool[c.Intn(npeers)])
-			b[idLen-1-c.Intn(3)] ^= byte(1 << uint(c.Intn(8)))
-			addID(b)
+			addEntry(entry(200+uint64(c.Intn(npeers)), uint64(c.Intn(24))))
 		default:
-			addID(local)
+			addEntry(entry(8*idLen, 0))
 		}
 	}
 	counts := []int64{0, 1, 1, 2, 3, 5, size, size + 1, 20, 50}
@@ -646,18 +693,17 @@ func genHistory(c *hx.Ctx, kind string) history {
 
 func genIdCase(c *hx.Ctx) idCase {
 	t := c.Bytes(idLen)
-	a := idWithCPL(c, t, pickCPL(c, "close"))
-	var b []byte
+	ka := uint64(pickCPL(c, "close"))
+	ic := idCase{T: hx.Hex(t), EA: entry(ka, uint64(c.Intn(1<<16)))}
 	switch c.Intn(3) {
 	case 0:
-		b = c.Bytes(idLen)
+		ic.EB = entry(161, uint64(c.Intn(1<<16)))
 	case 1:
-		b = idWithCPL(c, t, refCPL(a, t)) // same prefix length as a
+		ic.EB = entry(ka, uint64(c.Intn(1<<16))) // same prefix length as a
 	default:
-		b = append([]byte{}, a...)
-		b[c.Intn(idLen)] ^= byte(1 << uint(c.Intn(8)))
+		ic.EB = entry(200, uint64(c.Intn(8*idLen))) // a with one bit flipped
 	}
-	return idCase{hx.Hex(t), hx.Hex(a), hx.Hex(b)}
+	return ic
 }
 
 // probes executed on every run
@@ -666,12 +712,9 @@ func probeSize1Local() history {
 	for i := range local {
 		local[i] = byte(i * 7)
 	}
-	far := append([]byte{}, local...)
-	far[0] ^= 0x80
-	near := append([]byte{}, local...)
-	near[idLen-1] ^= 1
+	// pool: the local id, a peer sharing no prefix bit, a peer sharing 159 bits
 	return history{Kind: "probe:size1-local-id", Size: 1, Local: hx.Hex(local),
-		Pool: []string{hx.Hex(local), hx.Hex(far), hx.Hex(near)},
+		Pool: []uint64{entry(8*idLen, 0), entry(0, 1), entry(8*idLen-1, 2)},
 		Ops:  []hop{{K: "u", I: 0, A: 1}, {K: "u", I: 1, A: 2}, {K: "u", I: 2, A: 3}, {K: "n", I: 2, C: 5}, {K: "r", I: 0}, {K: "u", I: 0, A: 4}}}
 }
 
@@ -717,10 +760,12 @@ func record(c *hx.Ctx, h *history, o *hobs) {
 		return
 	}
 	var fin []string
-	for _, b := range o.Final {
-		fin = append(fin, coqPents(b))
+	for i, b := range o.Final {
+		if len(b) > 0 {
+			fin = append(fin, fmt.Sprintf("(%d, %s)", i, coqPents(b)))
+		}
 	}
-	c.Case(fmt.Sprintf("CHist %s %s %s %s %s %s", hx.CoqZ(h.Size), coqID(h.Local), coqPool(h.Pool), coqOps(h.Ops), res, hx.CoqList(fin)), h)
+	c.Case(fmt.Sprintf("CHist %s %s %s %s %s %d %s", hx.CoqZ(h.Size), coqID(h.Local), coqPool(h.Pool), coqOps(h.Ops), res, len(o.Final), hx.CoqList(fin)), h)
 }
 
 func runBatch(c *hx.Ctx, hs []history, ids []idCase, timeout time.Duration) {
@@ -735,8 +780,8 @@ func runBatch(c *hx.Ctx, hs []history, ids []idCase, timeout time.Duration) {
 		for _, f := range o.Fails {
 			c.Fail(f.Class, f.Clause, ids[i], f.Got, f.Want)
 		}
-		c.Nontrivial("id" + ids[i].T + ids[i].A + ids[i].B)
-		c.Case(fmt.Sprintf("CId %s %s %s %d %s %s", coqID(ids[i].T), coqID(ids[i].A), coqID(ids[i].B),
+		c.Nontrivial(fmt.Sprint("id", ids[i]))
+		c.Case(fmt.Sprintf("CId %s %d %d %d %s %s", coqID(ids[i].T), ids[i].EA, ids[i].EB,
 			o.Cpl, coqID(o.Dist), hx.CoqBool(o.Closer)), ids[i])
 	}
 	for i := range hs {
